@@ -22,6 +22,7 @@ import json
 import math
 import os
 import random
+import time
 import warnings
 from concurrent.futures import ThreadPoolExecutor
 
@@ -453,6 +454,64 @@ def validate(ctx, d, cases, pool_submit, tag):
     return subs
 
 
+def many_paths_part(ctx):
+    """thorough tier: a conserved acyclic flow on the complete DAG over 165 states (13530 edges) decomposes into more than
+    10^4 pathways; with the default num_paths the clauses PathsAreReal / NonIncreasing / ReachesFraction of Paths.tla are
+    evaluated on what the real `paths` returns (no trace validation at this length: 10^4 pathways of up to 150 states)"""
+    from enspara.tpt import path as tptpath
+    n = 165
+    rng = np.random.default_rng(17)
+    F = np.zeros((n, n))
+    for i in range(n - 1):
+        for j in range(i + 1, n):
+            wgt = float(rng.integers(1, 1 << 30))
+            p = [i, j]
+            a = i
+            while a != 0:
+                a = int(rng.integers(0, a))
+                p.insert(0, a)
+            a = j
+            while a != n - 1:
+                a = int(rng.integers(a + 1, n))
+                p.append(a)
+            F[p[:-1], p[1:]] += wgt
+    F0 = F.copy()
+    total = F0[0].sum()
+    ctx.case(("many-paths", n))
+    ctx.traces += 1
+    t0 = time.time()
+    try:
+        plist, fluxes = tptpath.paths([0], [n - 1], F)
+    except Exception as ex:
+        ctx.violation({"kind": "paths-raised", "case": "complete DAG flow, %d states" % n, "error": "%s: %s" % (type(ex).__name__, ex)},
+                      key="paths/raised/subtract/%s" % type(ex).__name__)
+        return
+    fluxes = np.asarray(fluxes, dtype=float)
+    bad = []
+    R = F0.copy()
+    for k, (p, f) in enumerate(zip(plist, fluxes)):
+        p = [int(x) for x in p]
+        e = R[p[:-1], p[1:]]
+        if len(set(p)) != len(p) or p[0] != 0 or p[-1] != n - 1 or not np.all(e > 0) or f != e.min():
+            bad.append(("PathsAreReal", k))
+            break
+        R[p[:-1], p[1:]] -= f
+    if np.any(np.diff(fluxes) > 0):
+        bad.append(("NonIncreasing", int(np.argmax(np.diff(fluxes) > 0))))
+    if not fluxes.sum() >= (1 - 1e-10) * total * (1 - 1e-12):
+        bad.append(("ReachesFraction", len(plist)))
+    if not np.array_equal(F, F0):
+        bad.append(("InputUntouched", 0))
+    for clause, at in bad:
+        ctx.violation({"kind": "replay", "clause": clause, "at_pathway": at, "pathways_returned": len(plist),
+                       "explained_fraction": float(fluxes.sum() / total), "requested_fraction": 1 - 1e-10,
+                       "case": "conserved flow 0 -> %d on the complete DAG over %d states (integer route weights, seed 17), "
+                               "paths([0], [%d], F) with the defaults" % (n - 1, n, n - 1),
+                       "how": "Paths.tla clause evaluated on the returned pathways"},
+                      key="paths/subtract/conserved/many-paths/%s" % clause)
+    ctx.notes["many_paths_case"] = {"states": n, "pathways": len(plist), "wall_s": round(time.time() - t0, 1)}
+
+
 def run(ctx):
     plan = PLAN[ctx.tier]
     ctx.rule = ("a graph counts when a source->sink path exists; a recorded run counts when the real `paths` "
@@ -582,6 +641,8 @@ def run(ctx):
                                       key=key)
         ctx.notes["rejected_runs_by_key"] = n_bad
         ctx.notes["recorded_cases"] = len(recorded)
+        if ctx.tier == "thorough":
+            many_paths_part(ctx)
 
         # ---- accounting of every TLC run (in submission order)
         for job, expect_ok, fut in submitted:
